@@ -377,3 +377,27 @@ def main_digests(cid, tier, lo, hi):
         return 2
     print(json.dumps({str(k): v for k, v in agg["digests"].items()}))
     return 0
+
+
+def main_only(cid, tier, index, seed=None, shrink_sig=None):
+    """Debug helper: one run index, findings, optional shrink of one signature."""
+    check = load_check(cid)
+    if seed is None:
+        seed = int(os.environ.get("VERIF_SEED", DEFAULT_SEED[tier]))
+    wd = tempfile.mkdtemp(prefix="verif-only-")
+    try:
+        sc, ctx = run_one(check, seed, index, tier, wd)
+        for f in ctx.findings:
+            print("finding:", f.signature, "::", f.message[:800])
+        print("counters:", dict(ctx.counters))
+        if shrink_sig:
+            small, tries = shrink(check, sc, shrink_sig, wd)
+            print("shrunk after", tries, "tries")
+            print(json.dumps(check.summarize(small) if hasattr(check, "summarize") else small, indent=1, default=repr))
+            path = write_replay(cid, shrink_sig, seed, index, small, "")
+            print("replay:", path)
+        elif not ctx.findings:
+            print(json.dumps(check.summarize(sc) if hasattr(check, "summarize") else sc, indent=1, default=repr)[:6000])
+    finally:
+        shutil.rmtree(wd, ignore_errors=True)
+    return 0
